@@ -6,6 +6,8 @@ pub mod c02;
 pub mod c06;
 pub mod c09;
 pub mod c10;
+pub mod c11;
+pub mod c12;
 pub mod c16;
 pub mod c17;
 pub mod c19;
@@ -13,5 +15,5 @@ pub mod c20;
 pub mod dp;
 
 pub fn all() -> Vec<Property> {
-    vec![c01::property(), c02::property(), dp::c03(), dp::c04(), c06::property(), dp::c07(), dp::c08(), c09::property(), c10::property(), dp::c14(), c16::property(), c17::property(), c19::property(), c20::property()]
+    vec![c01::property(), c02::property(), dp::c03(), dp::c04(), c06::property(), dp::c07(), dp::c08(), c09::property(), c10::property(), c11::property(), c12::property(), dp::c14(), c16::property(), c17::property(), c19::property(), c20::property()]
 }
